@@ -369,9 +369,13 @@ def repair_residue(molecule, ref_residue, include_graph):
             node = {}
             for key, val in ref_residue.items():
                 # Some attributes are only relevant on a residue level, not on
-                # an atom level.
+                # an atom level. Conversely, coordinates belong to one atom:
+                # the residue node carries a 'position' when all the atoms
+                # found for the residue have the same one (always the case
+                # for a residue with a single atom), and a reconstructed atom
+                # must not inherit it.
                 if key not in ('match', 'found', 'reference', 'nnodes',
-                               'nedges', 'density'):
+                               'nedges', 'density', 'position'):
                     node[key] = val
             ref_node = reference.nodes[ref_idx].copy()
             if 'resid' in ref_node:
